@@ -119,6 +119,15 @@ def count_or_crash(root, tmp, action, crash_at, partial):
                     handle.write = write
                     return handle
                 tick()
+                # closing is a primitive of its own: dying before it loses whatever is still buffered in the process
+                real_close = handle.close
+
+                def close():
+                    if not handle.closed:
+                        tick()
+                    return real_close()
+
+                handle.close = close
             return handle
 
         pathlib.Path.mkdir, pathlib.Path.rename, pathlib.Path.open, pathlib.Path.write_bytes = mkdir, rename, opener, write_bytes
@@ -148,11 +157,17 @@ def observe_long_lived(case):
     root = tempfile.mkdtemp(prefix='c05l_', dir='/var/tmp')
     tmp = tempfile.mkdtemp(prefix='c05lp_', dir='/var/tmp')
     ctx = multiprocessing.get_context('fork')
-    parent, child = ctx.Pipe()
 
     def writer(conn):
         directory = asset.Directory(posix.Registry(path=root))
         registry = posix.Registry(path=root)
+        handles = {}      # one Release handle per version, kept (with whatever it remembers) for the writer's life
+
+        def release(version):
+            if version not in handles:
+                handles[version] = directory.get(PROJECT).get(version)
+            return handles[version]
+
         while True:
             action = conn.recv()
             if action is None:
@@ -163,36 +178,47 @@ def observe_long_lived(case):
                     directory.get(PROJECT).put(fake_package(tmp, action[1], f'package {action[1]}'.encode()))
                 elif action[0] == 'dump':
                     registry.write(asset.Project.Key(PROJECT), asset.Release.Key(action[1]), sid(action[2]), f'state {action[2]}'.encode())
+                elif action[0] == 'peek':
+                    rel = release(action[1])
+                    try:
+                        rel.get(None).tag          # what a training run does first: look at the latest generation
+                    except forml.AnyError:
+                        pass
                 else:
-                    rel = directory.get(PROJECT).get(action[1])
-                    rel.put(asset.Tag(training=asset.Tag.Training(None, None), states=[sid(n) for n in action[2]]))
+                    release(action[1]).put(asset.Tag(training=asset.Tag.Training(None, None), states=[sid(n) for n in action[2]]))
             except forml.AnyError:
                 code = 3
             except BaseException:  # pylint: disable=broad-except
                 code = 4
             conn.send(code)
 
-    proc = ctx.Process(target=writer, args=(child,), daemon=True)
-    proc.start()
+    pipes = [ctx.Pipe() for _ in range(2)]
+    procs = [ctx.Process(target=writer, args=(child,), daemon=True) for _, child in pipes]
+    for proc in procs:
+        proc.start()
     try:
         steps = []
         for action in case['history']:
             before = reader_view(root)
+            who = action[-1] if action[0] in ('commit', 'peek') and isinstance(action[-1], int) and len(action) == (4 if action[0] == 'commit' else 3) else 0
+            parent = pipes[who][0]
             parent.send(action)
             if not parent.poll(120):
                 return {'error': f'writer did not finish {action}'}
             code = parent.recv()
             steps.append({'before': before, 'after': reader_view(root), 'ok': code == 0, 'refused': code == 3, 'crashes': [], 'complete': None})
-        parent.send(None)
+        for parent, _ in pipes:
+            parent.send(None)
         import json
 
         return json.loads(json.dumps({'steps': steps}))
     except Exception as err:  # pylint: disable=broad-except
         return {'error': f'{type(err).__name__}: {err}'}
     finally:
-        proc.join(5)
-        if proc.is_alive():
-            proc.kill()
+        for proc in procs:
+            proc.join(5)
+            if proc.is_alive():
+                proc.kill()
         shutil.rmtree(root, ignore_errors=True)
         shutil.rmtree(tmp, ignore_errors=True)
 
